@@ -54,22 +54,32 @@ CoupledAccept(s1, s2, s3) == s1 = s2 /\ s2 = s3 /\ Len(s1) = 2 /\ s1[2] = 3
 CoupledRefuse(s1, s2, s3) == ~(s1 = s2 /\ s2 = s3)
 \* (equal shapes that are not (n,3) are left open: the statement does not fix them)
 
-\* events: values x kind of event
+\* two parameters of ONE constructor call at a time: the checks are independent, a wrong shape in
+\* one place is not excused by a complementary wrong shape in another
+PairShapes == {<<3>>, <<3, 3>>, <<>>, <<9>>, <<1, 3>>, <<3, 1>>, <<2>>, <<3, 3, 3>>, <<2, 2>>}
+CtorOf(p) == CHOOSE c \in {"Data3D", "Force", "Calib", "Seelab"} : SubSeq(p, 1, Len(c)) = c
+FixedNames == DOMAIN Fixed
+Pairs == {pq \in FixedNames \X FixedNames : pq[1] # pq[2] /\ CtorOf(pq[1]) = CtorOf(pq[2])}
+PairAccept(pq, s1, s2) == s1 = Fixed[pq[1]] /\ s2 = Fixed[pq[2]]
+
+\* events: values x kind of event; a 0-dimensional array is a scalar, not an iterable
 EventVals == {[k |-> k, n |-> n] : k \in {"list", "tuple", "ndarray_f4", "ndarray_f8"}, n \in 0..3}
-             \cup {[k |-> k, n |-> 0] : k \in {"none", "int", "float"}}
+             \cup {[k |-> k, n |-> 0] : k \in {"none", "int", "float", "ndarray0_f4", "ndarray0_f8", "npscalar"}}
 EventAccept(v, single) == v.k \in {"list", "tuple", "ndarray_f4", "ndarray_f8"} /\ (single => v.n <= 1)
-EventRefuse(v, single) == v.k \in {"none", "int", "float"} \/ (single /\ v.n > 1)
+EventRefuse(v, single) == v.k \in {"none", "int", "float", "ndarray0_f4", "ndarray0_f8", "npscalar"} \/ (single /\ v.n > 1)
 
 VARIABLES q
 Init == q \in {[t |-> "param", p |-> p, a |-> a] : p \in Params, a \in Args}
               \cup {[t |-> "coupled", s |-> <<s1, s2, s3>>] : s1 \in CoupledShapes, s2 \in CoupledShapes, s3 \in CoupledShapes}
               \cup {[t |-> "event", v |-> v, single |-> sg] : v \in EventVals, sg \in BOOLEAN}
+              \cup {[t |-> "pair", p |-> pq[1], p2 |-> pq[2], s |-> <<s1, s2>>] : pq \in Pairs, s1 \in PairShapes, s2 \in PairShapes}
 Next == UNCHANGED q
 Spec == Init /\ [][Next]_q
 
 Verdict == IF q.t = "param" THEN (IF MustAccept(q.p, q.a) THEN "accept" ELSE "refuse")
            ELSE IF q.t = "coupled" THEN (IF CoupledAccept(q.s[1], q.s[2], q.s[3]) THEN "accept"
                                          ELSE IF CoupledRefuse(q.s[1], q.s[2], q.s[3]) THEN "refuse" ELSE "open")
+           ELSE IF q.t = "pair" THEN (IF PairAccept(<<q.p, q.p2>>, q.s[1], q.s[2]) THEN "accept" ELSE "refuse")
            ELSE (IF EventAccept(q.v, q.single) THEN "accept" ELSE IF EventRefuse(q.v, q.single) THEN "refuse" ELSE "open")
 
 \* the table is a partition: nothing must be both accepted and refused
